@@ -117,6 +117,20 @@ fn close_scenario(seed: u64, thorough: bool) -> Result<Outcome, String> {
 	// `auto`: nobody force-closes by hand — blocks are connected until one of the two MONITORS goes on chain by itself for an HTLC deadline
 	// (should_broadcast_holder_commitment_txn); whoever does is the closer, and the height is compared with Model/ClaimTime.lean `firstOnchain`
 	let auto = !anchors && rng.chance(1, 6);
+	// `multi` (same-block multi-claim mode, ~1/6 of the scenarios; its draws come from a stream of their own so that the other scenarios are what they
+	// were): legacy channel closed by B's commitment carrying 3-5 outbound HTLCs of A with ONE expiry (A claims them with one aggregated timeout
+	// transaction), B knows the preimages of 2-3 of them (not all); B's single-input HTLC-success transactions are held back until A's aggregated claim
+	// is out and then confirm TOGETHER in one block that does not contain A's claim (OnchainTxHandler::update_claims_view_from_matched_txn splits one
+	// pending request twice in one call)
+	let mut mrng = Rng::new(seed.rotate_left(23) ^ 0xC07_5A3E_B10C);
+	let multi = mrng.chance(1, 6);
+	let (anchors, auto) = if multi { (false, false) } else { (anchors, auto) };
+	if multi { holder_close = false; }
+	// (`multi`: the fee estimator stays <= MULTI_EST_CAP sat/kw and the same-expiry HTLCs are >= 5000 sat.  The request that is left over after a split keeps
+	// the `feerate_previous` of the AGGREGATED claim — up to half of the aggregated value over the aggregated weight — and every later claim of it must pay
+	// 25% more than that: with the estimator at 60_000 sat/kw a small left-over output can never be claimed again, generate_claim returns None at every
+	// block and A's balance never drains.  Reported to the integrator as a candidate finding with its inputs; not generated here)
+	const MULTI_EST_CAP: u32 = 2_500;
 	let (cfg_a, cfg_b, d_a, d_b) = draw_cfgs(&mut rng, anchors);
 	let mut net = std::mem::ManuallyDrop::new(Net::new(2, vec![Some(cfg_a), Some(cfg_b)]));   // never dropped: skips Node::drop's end-of-test assertions (half-finished scenario by design)
 	{	// block-delivery style from the scenario seed (create_network draws it from a per-process RandomState otherwise)
@@ -156,6 +170,14 @@ fn close_scenario(seed: u64, thorough: bool) -> Result<Outcome, String> {
 		} else if let Ok(p) = net.send(&[x, y], &[c], amt, delta) { pays.push(p); }
 		net.settle(40);
 	}
+	// (`multi`) 3-5 non-dust outbound HTLCs A->B sent at one height with one final cltv delta: identical cltv_expiry
+	let mut multi_pays: Vec<usize> = vec![];
+	if multi {
+		let n_same = mrng.range(3, 5);
+		let delta = 42 + mrng.below(50) as u32;
+		for _ in 0..n_same { if let Ok(p) = net.send(&[0, 1], &[c], mrng.range(5_000_000, 30_000_000), delta) { multi_pays.push(p); } net.settle(40); }
+		if multi_pays.len() < 3 { return Err("multi: fewer than 3 same-expiry HTLCs".into()); }
+	}
 	// receivers learn some preimages BEFORE the close (their fulfil messages are NOT delivered: the HTLCs stay in the commitments), some at a
 	// chosen number of blocks AFTER the closing commitment confirmed (0 = right after it, .. up to past the point where the manager gave up), some never
 	let mut known: BTreeSet<[u8; 32]> = BTreeSet::new();
@@ -165,11 +187,19 @@ fn close_scenario(seed: u64, thorough: bool) -> Result<Outcome, String> {
 		2 | 3 => late.push((p, match rng.below(6) { 0 => 0, 1 => 1, 2 => rng.range(2, 6) as u32, 3 => rng.range(6, 14) as u32, _ => rng.range(0, 60) as u32 })),
 		_ => {},
 	} }
+	// (`multi`) B learns 2 (of >= 4 sometimes 3) of the same-expiry preimages the same way — never all of them
+	let mut multi_known: BTreeSet<[u8; 32]> = BTreeSet::new();
+	if multi {
+		let n_known = if multi_pays.len() >= 4 && mrng.chance(1, 2) { 3 } else { 2 };
+		let mut order: Vec<usize> = multi_pays.clone();
+		for k in 0..n_known { let j = k + mrng.below((order.len() - k) as u64) as usize; order.swap(k, j); }
+		for &p in &order[..n_known] { known.insert(net.pays[p].hash.0); multi_known.insert(net.pays[p].hash.0); net.claim(p); let to = net.pays[p].to; net.process_events(to); }
+	}
 	// ---- closure ----------------------------------------------------------------------------------------
 	let a = 0usize; let b = 1usize;
 	// the counterparty closes with the commitment that is, in A's monitor, the PREVIOUS one (`prev_counterparty_commitment_txid`): A has signed a
 	// newer commitment for B (a new outbound HTLC here; an update_fulfill of a payment A claimed above does the same) that B never received
-	if !holder_close && !auto && rng.chance(1, 3) {
+	if !holder_close && !auto && !multi && rng.chance(1, 3) {
 		let amt = match rng.below(3) { 0 => rng.range(1_000, 500_000), _ => rng.range(1_000_000, 20_000_000) };
 		let _ = net.send(&[a, b], &[c], amt, 42 + rng.below(100) as u32);      // NOT settled: update_add_htlc + commitment_signed stay in the queue
 	}
@@ -275,11 +305,16 @@ fn close_scenario(seed: u64, thorough: bool) -> Result<Outcome, String> {
 	}
 	// (what the closer broadcast together with its commitment — a legacy holder's HTLC-success transactions — stays in the queue: it is
 	// collected, verified and offered to the miner in round 0)
+	// (how many transactions A had broadcast BEFORE the closing commitment confirmed: they are collected in round 0 like the later ones)
+	let n_pre_a = net.nodes[a].tx_broadcaster.txn_broadcasted.lock().unwrap().len();
 	mine_both(&net, &[commitment_tx.clone()]);
 	drain(&net);
 	let close_h = net.nodes[a].best_block_info().1;
 	conf_height.insert(ctxid, close_h);
 	spent.insert(commitment_tx.input[0].previous_output);
+	// outpoint -> (height, txid) of its spend mined on the best chain
+	let mut spent_at: HashMap<OutPoint, (u32, Txid)> = HashMap::new();
+	spent_at.insert(commitment_tx.input[0].previous_output, (close_h, ctxid));
 	// ---- SpendableOutputs bookkeeping: which outputs pay A, the CSV REALLY in their script, when they must be handed out ----------
 	// outpoint -> (true csv of the script, what it is)
 	let mut expect: BTreeMap<(Txid, u32), (u32, String, Vec<usize>)> = BTreeMap::new();
@@ -372,9 +407,22 @@ fn close_scenario(seed: u64, thorough: bool) -> Result<Outcome, String> {
 	let mut fee_traj = Est::new(fee_kind, &mut rng);
 	out.est_kind = format!("close-estimator:{:?}", fee_kind);
 	let rounds = 420 + d_a.max(d_b) as u32;
+	// (`multi`) the outputs of the same-expiry group whose preimage B knows (B's HTLC-success transactions spend them), the group's expiry, and the
+	// state of the hold-back: 0 = B's transactions for those outputs are held back, 1 = A's aggregated claim was broadcast: THIS round's block takes
+	// B's transactions together and none of A's, 2 = over (the loop goes on as usual)
+	let multi_ops: BTreeSet<OutPoint> = items.iter().filter(|it| it.kind == K::O && multi_known.contains(&it.hash)).map(|it| OutPoint { txid: ctxid, vout: it.vout }).collect();
+	let multi_cltv = items.iter().filter(|it| multi_known.contains(&it.hash)).map(|it| it.cltv).max().unwrap_or(0);
+	let mut multi_state: u8 = if multi && multi_ops.len() >= 2 { 0 } else { 2 };
+	let mut multi_split: Option<usize> = None;
+	let mut a_bcast_seen = 0usize;
+	// (a node that is told the new best block BEFORE the block's transactions may issue a timer bump / release a parked claim without having seen what
+	// that block spends: for these delivery styles only spends of EARLIER blocks count below)
+	let a_best_block_first = matches!(*net.nodes[a].connect_style.borrow(), ConnectStyle::BestBlockFirst | ConnectStyle::BestBlockFirstSkippingBlocks | ConnectStyle::BestBlockFirstReorgsOnlyTip);
+	let mut n_double = 0u32;
 	for _round in 0..rounds {
+		if multi_state == 0 && net.nodes[a].best_block_info().1 > multi_cltv + 3 { multi_state = 2; }      // (A's aggregated claim never showed up: give up holding back)
 		// the fee estimator follows a scripted trajectory (falling / rising / oscillating / random walk / spike-then-crash / constant)
-		if rng.chance(1, 4) { let v = fee_traj.next(&mut rng).min(60_000); *net.nodes[a].fee_estimator.sat_per_kw.lock().unwrap() = v; }
+		if rng.chance(1, 4) { let v = fee_traj.next(&mut rng).min(if multi { MULTI_EST_CAP } else { 60_000 }); *net.nodes[a].fee_estimator.sat_per_kw.lock().unwrap() = v; }
 		let h = net.nodes[a].best_block_info().1;
 		// ---- a preimage learned only now, `k` blocks after the closing commitment confirmed ----------------------------------------
 		let due_now: Vec<usize> = late.iter().filter(|(_, k)| close_h + *k == h).map(|(p, _)| *p).collect();
@@ -402,6 +450,24 @@ fn close_scenario(seed: u64, thorough: bool) -> Result<Outcome, String> {
 			let v: Vec<Transaction> = net.nodes[i].tx_broadcaster.txn_broadcasted.lock().unwrap().drain(..).collect();
 			for t in v {
 				if i == a {
+					{	// IMPLEMENTATION ORACLE: no transaction A broadcasts (after having seen the spend: not the ones queued before the closing commitment confirmed,
+						// not a re-broadcast of the confirmed transaction itself) spends an outpoint that already has a CONFIRMED spend on the best chain.  Hard for
+						// every counterparty-commitment close, and for holder closes while that spend has fewer than ANTI_REORG_DELAY confirmations (afterwards it is
+						// the accepted observation `obs-claims-of-outputs-already-spent-on-chain`: a late preimage re-requests every holder claim)
+						if std::env::var("C07_CLOSE_SEED").is_ok() { eprintln!("A-BROADCAST at height {}: inputs {:?} nLockTime {} fee {:?} (estimator {})", h, t.input.iter().map(|i| format!("{}:{}", &i.previous_output.txid.to_string()[..8], i.previous_output.vout)).collect::<Vec<_>>(), t.lock_time, fee_of(&t, &prevouts), *net.nodes[a].fee_estimator.sat_per_kw.lock().unwrap()); }
+						let queued_before_close = a_bcast_seen < n_pre_a;
+						a_bcast_seen += 1;
+						let tid = t.compute_txid();
+						let dbl: Vec<String> = t.input.iter().filter_map(|inp| spent_at.get(&inp.previous_output).filter(|(sh, sid)| *sid != tid && (*sh < h || !a_best_block_first) && (!holder_close || h + 1 < *sh + lightning::chain::channelmonitor::ANTI_REORG_DELAY))
+							.map(|(sh, sid)| format!("{}:{} spent by {} at height {} ({} confirmations)", &inp.previous_output.txid.to_string()[..8], inp.previous_output.vout, &sid.to_string()[..8], sh, h + 1 - sh))).collect();
+						if !dbl.is_empty() && !queued_before_close && n_double < 3 {
+							n_double += 1;
+							out.oracle.push(format!("A broadcasts {} at height {} spending an outpoint that already has a CONFIRMED spend on the best chain: {} — inputs {:?}, nLockTime {} (closing commitment {} confirmed at {}; {}{})", &tid.to_string()[..8], h, dbl.join(", "),
+								t.input.iter().map(|i| format!("{}:{}", &i.previous_output.txid.to_string()[..8], i.previous_output.vout)).collect::<Vec<_>>(), t.lock_time, &ctxid.to_string()[..8], close_h, desc,
+								if multi { format!("; same-block multi-claim mode, {} of B's HTLC-success transactions in one block", multi_split.map(|n| n.to_string()).unwrap_or("-".into())) } else { String::new() }));
+						}
+						if multi_state == 0 && t.input.iter().filter(|x| x.previous_output.txid == ctxid).count() >= 3 && t.input.iter().filter(|x| multi_ops.contains(&x.previous_output)).count() >= 2 { multi_state = 1; }
+					}
 					if t.input.iter().any(|inp| !prevouts.contains_key(&inp.previous_output)) { out.oracle.push(format!("A broadcast {} spends an unknown outpoint at height {} (close {}): inputs {:?} outputs {:?} holder_close={}", t.compute_txid(), h, close_h, t.input.iter().map(|i| format!("{}:{}", &i.previous_output.txid.to_string()[..8], i.previous_output.vout)).collect::<Vec<_>>(), t.output.iter().map(|o| o.value.to_sat()).collect::<Vec<_>>(), holder_close)); continue; }
 					if let Err(e) = t.verify(|op| prevouts.get(op).cloned()) { out.oracle.push(format!("A's claim {} fails consensus verification: {:?}", t.compute_txid(), e)); }
 					if t.lock_time.is_block_height() && t.lock_time.to_consensus_u32() > h { out.oracle.push(format!("A's claim {} has nLockTime {} > broadcast height {}", t.compute_txid(), t.lock_time, h)); }
@@ -448,7 +514,10 @@ fn close_scenario(seed: u64, thorough: bool) -> Result<Outcome, String> {
 			let ok_inputs = t.input.iter().all(|i| prevouts.contains_key(&i.previous_output) && conf_height.contains_key(&i.previous_output.txid) && !spent.contains(&i.previous_output) && !taken.contains(&i.previous_output));
 			let fin = !t.lock_time.is_block_height() || t.lock_time.to_consensus_u32() <= h;
 			let csv_ok = t.input.iter().all(|i| match i.sequence.to_relative_lock_time() { Some(bitcoin::relative::LockTime::Blocks(n)) => h + 1 >= conf_height.get(&i.previous_output.txid).cloned().unwrap_or(h + 1) + n.value() as u32, _ => true });
-			if !(ok_inputs && fin && csv_ok) || block.iter().any(|x| x.compute_txid() == t.compute_txid()) || !(if lazy && *who == a { rng.chance(1, 8) } else { rng.chance(2, 3) }) { continue; }
+			// (`multi`: the hold-back has priority over the 2/3 selection and over `lazy`)
+			let multi_held = multi_state < 2 && *who == b && t.input.iter().any(|i| multi_ops.contains(&i.previous_output));
+			if (multi_state == 0 && multi_held) || (multi_state == 1 && *who == a) { continue; }
+			if !(ok_inputs && fin && csv_ok) || block.iter().any(|x| x.compute_txid() == t.compute_txid()) || !((multi_state == 1 && multi_held) || if lazy && *who == a { rng.chance(1, 8) } else { rng.chance(2, 3) }) { continue; }
 			if t.verify(|op| prevouts.get(op).cloned()).is_err() { continue; }   // B's transactions are not under test
 			for i in &t.input { taken.insert(i.previous_output); }
 			// ledger ops: which items does this transaction resolve?
@@ -469,6 +538,8 @@ fn close_scenario(seed: u64, thorough: bool) -> Result<Outcome, String> {
 			} }
 			block.push(t.clone());
 		}
+		if multi_state == 1 { multi_split = Some(block.iter().filter(|t| t.input.iter().any(|i| multi_ops.contains(&i.previous_output))).count()); multi_state = 2; }
+		for t in &block { let id = t.compute_txid(); for i in &t.input { spent_at.insert(i.previous_output, (h + 1, id)); } }
 		for t in &block { let id = t.compute_txid(); for i in &t.input { spent.insert(i.previous_output); } for (i, o) in t.output.iter().enumerate() { prevouts.insert(OutPoint { txid: id, vout: i as u32 }, o.clone()); } conf_height.insert(id, h + 1); }
 		for (k, v) in new_expect { match expect.get_mut(&k) { Some(e) => e.2.extend(v.2), None => { expect.insert(k, v); } } }
 		mine_both(&net, &block);
@@ -534,6 +605,8 @@ fn close_scenario(seed: u64, thorough: bool) -> Result<Outcome, String> {
 	out.class = format!("close:{}{}:O{}:I{}:U{}:S{}", if holder_close { "holder" } else { "counterparty" }, if anchors { "-anchors" } else { "" }, cnt(K::O), cnt(K::I), cnt(K::U), cnt(K::S));
 	let dup_in = { let mut m: BTreeMap<usize, usize> = BTreeMap::new(); for it in &items { if it.hid != 0 && (it.kind == K::I || it.kind == K::U) { *m.entry(it.hid).or_insert(0) += 1; } } m.values().cloned().max().unwrap_or(0) };
 	out.est_kind = format!("{};delays:{};spent:{};mpp-sent:{};same-hash-inbound-outputs:{};late-preimages:{};late-refused:{};cp-commitment:{};release-ops:{};reissue-ops:{};closed-by:{};obs-claims-of-outputs-already-spent-on-chain:{}", out.est_kind, if d_a > d_b { "A>B" } else { "A<B" }, n_spent_descriptors.min(9), n_mpp.min(3), dup_in, n_late.min(4), n_late_refused.min(3), if holder_close { "-" } else if cp_prev { "previous" } else { "current" }, n_release.min(3), n_sched.min(3), if auto { "monitor-deadline" } else { "force_close" }, n_respend.min(3));
+	// (`multi`) how many of B's HTLC-success transactions split A's aggregated claim in ONE block, of how many same-expiry HTLCs ("not-reached": A's aggregated claim never came out)
+	out.est_kind = format!("{};same-block-multi-claim:{}", out.est_kind, if !multi { "-".to_string() } else { match multi_split { Some(n) => format!("{}-of-{}", n.min(9), multi_pays.len()), None => "not-reached".to_string() } });
 	let _ = (item_state, a_history);
 	drain(&net);
 	Ok(out)
